@@ -70,19 +70,23 @@ class World:
         self.fs = [trf.transition_function_registry[impl.TNAMES[n]] for n in trans]
         self.cache = {}
 
-    def successors(self, cs, a):
+    def successors(self, cs, a, obj=None):
+        """-> [(next value, terminal?, next python state)].  The step is made the way GridWorld makes it: on a pickle copy of the python state
+        object that was REACHED (not on a state rebuilt from its value), so whatever the objects carry along a history travels with them"""
+        import pickle
         key = (cs, a)
         if key in self.cache:
             return self.cache[key]
         outs = []
+        base = obj if obj is not None else wire.mkstate(cs)
 
         def run(rng):
-            s = wire.mkstate(cs)
+            s = pickle.loads(pickle.dumps(base))
             for f in self.fs:
                 f(s, impl.ACTS[a], rng=rng)
             nxt = wire.cstate(s)
-            done = bool(self.termf(wire.mkstate(cs), impl.ACTS[a], wire.mkstate(nxt)))
-            return nxt, done
+            done = bool(self.termf(base, impl.ACTS[a], s))
+            return nxt, done, s
 
         stack = [[]]
         while stack:
@@ -93,9 +97,13 @@ class World:
             except NeedMore as need:
                 for ans in _answers(need.req):
                     stack.append(script + [ans])
-        outs = list(dict.fromkeys(outs))
-        self.cache[key] = outs
-        return outs
+        seen, uniq = set(), []
+        for nxt, done, s in outs:
+            if (nxt, done) not in seen:
+                seen.add((nxt, done))
+                uniq.append((nxt, done, s))
+        self.cache[key] = uniq
+        return uniq
 
 
 def search(world, reset_name, cs0, limit):
@@ -104,12 +112,12 @@ def search(world, reset_name, cs0, limit):
     if goal_reached(reset_name, cs0):
         return ('win', [])
     seen = {cs0}
-    heap = [(exit_dist(reset_name, cs0), 0, cs0, ())]
+    heap = [(exit_dist(reset_name, cs0), 0, cs0, (), None)]
     tick = 0
     while heap:
-        _, _, cs, plan = heapq.heappop(heap)
+        _, _, cs, plan, obj = heapq.heappop(heap)
         for a in world.actions:
-            for nxt, done in world.successors(cs, a):
+            for nxt, done, nobj in world.successors(cs, a, obj):
                 if goal_reached(reset_name, nxt):
                     return ('win', list(plan) + [a])
                 if done or nxt in seen:
@@ -118,7 +126,7 @@ def search(world, reset_name, cs0, limit):
                 if len(seen) > limit:
                     return ('undecided', len(seen))
                 tick += 1
-                heapq.heappush(heap, (exit_dist(reset_name, nxt) + len(plan) // 4, tick, nxt, plan + (a,)))
+                heapq.heappush(heap, (exit_dist(reset_name, nxt) + len(plan) // 4, tick, nxt, plan + (a,), nobj))
     return ('lost', len(seen))
 
 
